@@ -33,7 +33,8 @@ func init() {
 		ID:    "C03",
 		Title: "Token supply changes only by the documented, exactly quantified events",
 		Funcs: fcNP("x/mint/types.Minter.CalculateBlockProvision", "x/mint/keeper.Keeper.MintCoins", "x/mint/keeper.Keeper.SendInflationaryRewards",
-			"x/mint.MintBlockProvision", "x/mint.SetPreviousBlockTime", "x/mint.BeginBlocker", "x/mint/keeper.msgServer.Init", "x/oracle/keeper.Keeper.transfer"),
+			"x/mint.MintBlockProvision", "x/mint.SetPreviousBlockTime", "x/mint.BeginBlocker", "x/mint/keeper.msgServer.Init", "x/oracle/keeper.Keeper.transfer",
+			"x/oracle/keeper.msgServer.Tip", "x/bridge/keeper.Keeper.ClaimDeposit", "x/bridge/keeper.Keeper.WithdrawTokens"),
 		Sweeps: []string{"supply_writers"},
 		Assumptions: []string{
 			"block-time gap below 62769647725999999 ns (about 726 days), the largest for which DailyMintRate*elapsed_ms fits in int64 (precondition gap_below_overflow)",
@@ -42,7 +43,7 @@ func init() {
 		},
 		NotDecided: []string{
 			"supply changes made by SDK modules themselves (slashing burn, IBC transfer mint/burn, gov deposit burn)",
-			"bridge and dispute mint/burn amounts are decided under C14 and C13",
+			"dispute burn amounts (ExecuteVote, WithdrawFeeRefund) are not yet under contract",
 		},
 	})
 	reg(&PropDef{
@@ -79,14 +80,14 @@ func init() {
 		Title: "Privileged changes need governance; messages touch only the signer's assets",
 		Funcs: fcNP("x/oracle/keeper.msgServer.UpdateParams", "x/oracle/keeper.msgServer.UpdateCyclelist", "x/registry/keeper.msgServer.UpdateDataSpec",
 			"x/registry/keeper.msgServer.RegisterSpec", "x/reporter/keeper.msgServer.UpdateParams", "x/bridge/keeper.msgServer.UpdateSnapshotLimit",
-			"x/dispute/keeper.msgServer.UpdateTeam", "x/mint/keeper.msgServer.Init", "x/oracle/keeper.msgServer.Tip"),
+			"x/dispute/keeper.msgServer.UpdateTeam", "x/mint/keeper.msgServer.Init", "x/oracle/keeper.msgServer.Tip", "x/bridge/keeper.msgServer.WithdrawTokens"),
 		Assumptions: []string{
 			"k.authority is the governance module address (set in app.go when the keepers are constructed)",
 			"bech32 decoding is modelled abstractly: AccAddressFromBech32(s) yields the account addr_str(s)",
 			"calls without specification (collections Walk/Clear, hooks, abi decoding) are havocked: results, memory reachable from their arguments, the store they operate on and everything their callbacks can write",
 		},
 		NotDecided: []string{
-			"the signer-only frame for the remaining message types (reporter, dispute, bridge handlers): only MsgTip is proved so far",
+			"the signer-only frame for the remaining message types (reporter, dispute, bridge handlers): only MsgTip and MsgWithdrawTokens are proved so far",
 			"SDK message types (bank send, staking) are not layer code",
 		},
 	})
@@ -105,6 +106,22 @@ func init() {
 		Funcs: fcNP("x/dispute/keeper.Keeper.GetDisputeFee", "x/dispute/keeper.GetSlashPercentageAndJailDuration"),
 		NotDecided: []string{
 			"escrow apportioning over selectors and redelegations/unbondings (EscrowReporterStake), slash-at-most-once, evidence equals the stored micro-report: not yet under contract",
+		},
+	})
+	reg(&PropDef{
+		ID:    "C14",
+		Title: "Bridge deposits mint once, conditionally; withdrawals burn what they attest",
+		Funcs: fcNP("x/bridge/keeper.Keeper.ClaimDeposit", "x/bridge/keeper.Keeper.WithdrawTokens", "x/bridge/keeper.msgServer.WithdrawTokens"),
+		Assumptions: []string{
+			"results of the oracle/bridge lookups used by ClaimDeposit (GetAggregateByIndex, GetValidatorSetTimestampBefore, GetValidatorCheckpointParamsFromStorage, DecodeDepositReportValue) are unconstrained: the guards are proved relative to whatever those calls return (ret(F,i))",
+			"the claimer and the decoded recipient are not the bridge module account; the sender of a withdrawal is not the bridge module account",
+			"total bonded tokens fit uint64; the withdrawal id is below 2^64-1",
+		},
+		NotDecided: []string{
+			"exactness of DecodeDepositReportValue (amount/10^12, tip, recipient) against the ABI encoding: abi.Unpack is unmodelled",
+			"that the aggregate value of a withdrawal encodes recipient, sender and amount (GetWithdrawalReportValue): abi.Pack is unmodelled; only the data flow (aggregate from CreateWithdrawalAggregate with this id and amount is the one stored) is proved",
+			"that no reporter can create an aggregate for a withdrawal query (PreventBridgeWithdrawalReport and writers of Aggregates): not yet under contract",
+			"batched claims (msgServer.ClaimDeposits loop)",
 		},
 	})
 }
